@@ -80,6 +80,8 @@ def field_of_value(v, sy=None):
             v = v[2][0]
         elif k == "cast" and ("dyn " in v[1] or (v[1] in LOSSLESS_TO and _cast_source_ok(v))):
             v = v[2]
+        elif k == "conv":
+            v = v[2]
         elif k == "call" and len(v[3]) == 2 and v[3][1][0] == "lam" and v[1].split("::")[-1].split("<")[0] in ("map", "and_then"):
             # a closure applied to the value (Option::map) or to each element (Iterator::map): it must itself be transparent
             if sy is None:
